@@ -77,6 +77,25 @@ def structured(tier):
             for rc in ((1, 0) if k in (0, 7, 9) else (1,)):
                 evs = ["C", "F:p:69", f"A:{w}", f"S:{k}", "A:10037", "A:537"] + (["F:p:69", "F:f"] if rc else ["C", "F:p:69"])
                 yield (3, rc, ["ooo", "ooo", "ooo"], evs)
+    # the connection object is used AGAIN: session 1 (traffic, optionally a loss that recovers), close() [twice], connect()
+    # again - plain or through the context manager (`async with`) - traffic, then a loss in the SECOND session with failed
+    # attempts before it recovers; also close() before the very first connect()
+    for fault in FAULTS:
+        for fails in ((), ("e",), ("h", "e")):
+            for variant, first_loss, twice in (("", 0, 0), ("~ctx", 1, 0), ("", 1, 1), ("~ctx", 0, 1)):
+                script = ["ooo"] + (["ooo"] if first_loss else []) + ["ooo"] + list(fails) + ["ooo"]
+                evs = ["C" + variant, "F:p:69", "F:f"]
+                if first_loss:
+                    evs += ["X", "A:537", "F:p:69"]
+                evs += ["Z" + variant] + (["Z"] if twice else []) + ["A:1037", "C" + variant, "F:p:69", "F:p:81"]
+                evs += FAULTS[fault] + recover_events(fails, "o") + ["A:537", "F:p:69", "F:p:81", "F:f", "A:11037", "A:537", "F:p:69"]
+                yield (3, 1, script, evs)
+        yield (2, 1, ["ooo", "ooo"], ["Z", "A:537", "C", "F:p:69"] + FAULTS[fault] + ["A:537", "F:p:69", "A:11037"])
+        yield (3, 0, ["ooo", "ooo", "ooo"], ["C", "F:p:69", "Z", "C", "F:p:69"] + FAULTS[fault] + ["A:11037", "C", "F:p:69"])
+    # a LONG outage: 1300 consecutive failed attempts (7 h at the 20 s back-off) before one succeeds, and a shorter one with
+    # hung attempts; every attempt must happen, at its back-off deadline, and the connection recovers
+    yield (3, 1, ["ooo"] + ["e"] * 1300 + ["ooo"], ["C", "F:p:69", "X"] + ["A:20037"] * 1301 + ["A:537", "F:p:69", "F:f"])
+    yield (2, 1, ["ooo"] + ["e", "h"] * 40 + ["ooo"], ["C", "F:p:69", "A:10037"] + ["A:20037", "A:26037"] * 40 + ["A:20037", "A:537", "F:p:69"])
     # reconnect off: loss is announced, nothing reconnects, a later connect() works again
     for fault in FAULTS:
         for first in ("ooo", "e", "h"):
